@@ -207,6 +207,11 @@ def _mk_cov(rs, kind, M, nc, scale=0.004):
                 S[i, j] = S[j, i] = vals[k] * (1 + 0.01 * k)
                 k += 1
         return S
+    if kind == 'negative':
+        # a stored "covariance" whose first model variance is negative (only the SEM clause is examined on it)
+        V = _psd(rs, n, scale)
+        V[0, 0] = -V[0, 0] - scale
+        return V
     if kind == 'stack':
         base = _psd(rs, n, scale)
         return np.array([base, 0.5 * base + 0.1 * _psd(rs, n, scale), 0.3 * base + 0.1 * _psd(rs, n, scale)])
@@ -245,16 +250,16 @@ def _mk_evals(rs, N, M, tail, nan='none', ties=False):
     return E, nan_samples
 
 
-def _mk_nc(rs, N, shape, nan_samples=(), k=2):
-    """noise ceiling: '1d' -> (2,), '2d' -> (2, N), '3d' -> (2, N, k); lower in 0.5..0.7, upper above"""
+def _mk_nc(rs, N, shape, nan_samples=(), k=2, level=0.6):
+    """noise ceiling: '1d' -> (2,), '2d' -> (2, N), '3d' -> (2, N, k); lower around `level`, upper 0.1 above"""
     if shape == '1d':
-        lo = 0.6 + 0.03 * rs.randn()
+        lo = level + 0.03 * rs.randn()
         return np.array([lo, lo + 0.1])
     if shape == '2d':
-        lo = 0.6 + 0.03 * rs.randn(N)
+        lo = level + 0.03 * rs.randn(N)
         nc = np.array([lo, lo + 0.1])
     else:
-        lo = 0.6 + 0.03 * rs.randn(N, k)
+        lo = level + 0.03 * rs.randn(N, k)
         nc = np.array([lo, lo + 0.1])
     for s in nan_samples:
         nc[:, s] = np.nan
@@ -268,7 +273,7 @@ def _build(case):
     M, N, tail = case['M'], case['N'], tuple(case.get('tail', ()))
     nc_rows = case.get('ncrows', True)
     E, nan_samples = _mk_evals(rs, N, M, tail, case.get('nan', 'none'), case.get('ties', False))
-    nc = _mk_nc(rs, N, case.get('ncshape', '1d'), nan_samples, k=(tail[-1] if tail else 2))
+    nc = _mk_nc(rs, N, case.get('ncshape', '1d'), nan_samples, k=(tail[-1] if tail else 2), level=case.get('nclevel', 0.6))
     V = _mk_cov(rs, case.get('cov', 'matrix'), M, nc_rows, case.get('scale', 0.004))
     kw = dict(dof=case.get('dof', 5), n_rdm=case.get('n_rdm'), n_pattern=case.get('n_pattern'))
     res = Result(_models(M), E.copy(), 'corr', case.get('cvm', 'bootstrap'), nc.copy(), variances=V.copy(), **kw)
@@ -1041,7 +1046,7 @@ def tier_c(run, thorough):
                         bd.check(orc_p_range, dict(base, tests=['bootstrap'], ncshape='1d'),
                                  'bootstrap' + (',partial-ties' if ties else ''), function='bootstrap_pair_tests')
                         if nd == 3 and nan != 'folds':
-                            bd.check(orc_p_range, dict(base, tests=['ranksum'], ncshape=('1d', '2d')[i % 2]),
+                            bd.check(orc_p_range, dict(base, tests=['ranksum'], nclevel=0.32, ncshape=('1d', '2d')[i % 2]),
                                      'ranksum' + (',ties' if ties else ''), function='ranksum_pair_test')
     bd.done()
     bds.append(bd)
@@ -1103,7 +1108,7 @@ def tier_c(run, thorough):
                         i += 1
                         N = (1, 6, 12)[i % 3] if nan == 'none' else (6, 12)[i % 2]
                         bd.check(orc_ranksum, dict(seed=4000 * seed + i, M=M, N=N, tail=[S], nan=nan, ties=ties, cov='matrix',
-                                                   ncrows=True, ncshape=('1d', '2d')[i % 2], dof=S - 1, n_rdm=S,
+                                                   ncrows=True, ncshape=('1d', '2d')[i % 2], dof=S - 1, n_rdm=S, nclevel=0.32,
                                                    cvm='fixed' if (N == 1 and nan == 'none') else 'bootstrap_rdm'),
                                  ('ties' if ties else 'continuous') + f',nan={nan}', function='ranksum_pair_test')
     bd.done()
@@ -1160,14 +1165,14 @@ def tier_c(run, thorough):
 
     # ---- sem / ci -----------------------------------------------------------------------------------------------------------
     bd = Bounded(run, 'C06/sem-ci', 'C06/Result.get_sem/oracle/nonnegative-and-ci-ordering',
-                 'scalar / vector / matrix / distinct-valued non-PSD matrix / 3-stack covariances, 1..4 models, 2..4-D arrays of 8..40 '
+                 'scalar / vector / matrix / matrix with a negative model variance / 3-stack covariances, 1..4 models, 2..4-D arrays of 8..40 '
                  'samples with / without NaN samples, dof in {1,4,25}, CI levels 0.5/0.9/0.95/0.99 (t and bootstrap); %d seeds'
                  % (4 if thorough else 1), function='Result.get_sem')
     i = 0
     for seed in range(4 if thorough else 1):
         for nd in (2, 3, 4):
             for M in (1, 2, 3, 4):
-                for cov in ('scalar', 'vector', 'matrix', 'sentinel', 'stack'):
+                for cov in ('scalar', 'vector', 'matrix', 'negative', 'stack'):
                     for nan in ('none', 'samples'):
                         i += 1
                         if cov == 'scalar' and M != 1:
@@ -1175,9 +1180,8 @@ def tier_c(run, thorough):
                         ncrows = False if cov == 'scalar' else bool(i % 2)
                         bd.check(orc_sem_ci, dict(seed=7000 * seed + i, M=M, N=(8, 19, 40)[i % 3], tail=list(TAILS[nd]), nan=nan,
                                                   cov=cov, ncrows=ncrows, dof=(1, 4, 25)[i % 3], n_rdm=(None, 3, 10)[i % 3],
-                                                  n_pattern=(None, 8)[i % 2], ci=[0.5, 0.9, 0.95, 0.99],
-                                                  scale=1.0 if cov == 'sentinel' else 0.004),
-                                 'negative-variance-entries' if cov == 'sentinel' else cov, function='Result.get_sem')
+                                                  n_pattern=(None, 8)[i % 2], ci=[0.5, 0.9, 0.95, 0.99]),
+                                 'negative-variance-entry' if cov == 'negative' else cov, function='Result.get_sem')
     bd.done()
     bds.append(bd)
 
@@ -1216,7 +1220,7 @@ def tier_c(run, thorough):
                             bd.check(orc_equivariance, dict(base, tests=['bootstrap'], ncshape='1d', select='rest'),
                                      'bootstrap-zero-ceiling,nan-samples', function='zero_tests')
                         if nd == 3 and M <= 4:
-                            bd.check(orc_equivariance, dict(base, tests=['ranksum'], ncshape=('1d', '2d')[i % 2]),
+                            bd.check(orc_equivariance, dict(base, tests=['ranksum'], nclevel=0.32, ncshape=('1d', '2d')[i % 2]),
                                      'ranksum,ties' if ties else 'ranksum', function='ranksum_pair_test')
     bd.done()
     bds.append(bd)
